@@ -268,6 +268,13 @@ func (p *C12) Evaluate(env *Env, c *Case) (*Outcome, error) {
 	var mms []mm
 	for i := 1; i < len(c.Steps); i++ {
 		st, r := &c.Steps[i], out.Results[i]
+		// a variant that carries an injected fault (rename onto the -o target
+		// fails with EXDEV) may legitimately end in a signalled failure; what it
+		// may not do is exit 0 with a missing or different result
+		if f, ok := st.Files[outPath]; ok && f.RenameErr != "" && base.OK() && !r.OK() &&
+			r.Crash() == "" && r.Hang() == "" && len(bytes.TrimSpace(r.Stderr)) > 0 {
+			continue
+		}
 		if r.OK() != base.OK() {
 			mms = append(mms, mm{i, "status"})
 			continue
